@@ -139,6 +139,30 @@ func vAdd(d int) opSpec {
 		func(e env) res { return mk(e.val.Set(msg(d), addOld)) },
 		func(s *state) res { s.v += d; return res{codes.OK, s.v} }}
 }
+
+// a write that leaves its message out (a typed nil, as an update request without its resource gives): it reads as the
+// empty message, and the interceptor is handed an empty message of this call's own to write to. Accumulating
+// like addOld, it stores old+1 every time - whatever an earlier call's interceptor wrote.
+var addOldPlusOne = resource.InterceptBefore(func(old, new proto.Message) {
+	new.(*T).DefaultInt32 += old.(*T).DefaultInt32 + 1
+})
+
+func vIncNil() opSpec {
+	return opSpec{"IncWritingNil",
+		func(e env) res { return mk(e.val.Set((*T)(nil), addOldPlusOne)) },
+		func(s *state) res { s.v++; return res{codes.OK, s.v} }}
+}
+func cIncNil() opSpec {
+	return opSpec{"IncWritingNil",
+		func(e env) res { return mk(e.col.Update("a", (*T)(nil), addOldPlusOne)) },
+		func(s *state) res {
+			if !s.has {
+				return res{codes.NotFound, -1}
+			}
+			s.v++
+			return res{codes.OK, s.v}
+		}}
+}
 func cAddDelta(d int) opSpec {
 	return opSpec{fmt.Sprintf("AddDelta(%d)", d),
 		func(e env) res { return mk(e.col.Update("a", msg(d), addOld)) },
@@ -559,6 +583,12 @@ func main() {
 		add(true, state{true, 0}, -1, -1, one(vCASCheck(0, 7, 0, first)), one(vSet(5)))
 		add(true, state{true, 0}, -1, -1, one(vCASCheck(1, 7, 5, first)), one(vInc()))
 	}
+
+	// ---- writes that leave their message out
+	add(true, state{true, 0}, -1, -1, []opSpec{vIncNil(), vIncNil()}, one(vIncNil()))
+	add(true, state{true, 0}, -1, -1, one(vIncNil()), one(vAdd(1)))
+	add(false, state{true, 0}, -1, -1, []opSpec{cIncNil(), cIncNil()}, one(cIncNil()))
+	add(false, state{true, 0}, -1, -1, one(cIncNil()), one(cAddDelta(1)))
 
 	// ---- Value, 2 threads: all pairs
 	vops := []opSpec{vSet(5), vCAS(0, 7), vInc(), vIncBelow(1), vAdd(1)}
